@@ -1182,3 +1182,108 @@ Proof.
   intros. eapply bulk_shift_invariant; [eassumption|eassumption|].
   eapply st6_diss_rot; eassumption.
 Qed.
+
+(* equal cosine and sine: the angles differ by a whole number of turns *)
+Lemma cos_sin_eq_period : forall a b, cos a = cos b -> sin a = sin b ->
+  exists m : Z, a = b + 2 * IZR m * PI.
+Proof.
+  intros a b Hc Hs.
+  assert (Hc1 : cos (a - b) = 1).
+  { rewrite cos_minus, Hc, Hs. pose proof (sin2_cos2 b) as H. unfold Rsqr in H. lra. }
+  assert (Hs0 : sin (a - b) = 0) by (rewrite sin_minus, Hc, Hs; ring).
+  destruct (sin_eq_0_0 _ Hs0) as [k Hk].
+  destruct (Z.Even_or_Odd k) as [[m Hm]|[m Hm]].
+  - exists m. subst k. rewrite mult_IZR in Hk. simpl in Hk. lra.
+  - exfalso. subst k.
+    assert (Hx : a - b = PI + 2 * IZR m * PI).
+    { rewrite Hk, plus_IZR, mult_IZR. simpl. ring. }
+    rewrite Hx, cos_period_Z, cos_PI in Hc1. lra.
+Qed.
+
+(* a direction in [0,360) whose cosine and sine are those of x degrees is x modulo 360 *)
+Lemma dir_is_pymod : forall d' x, 0 <= d' < 360 ->
+  cos (d' * PI / 180) = cos (x * PI / 180) -> sin (d' * PI / 180) = sin (x * PI / 180) ->
+  d' = pymod x 360.
+Proof.
+  intros d' x Hr Hc Hs. destruct (cos_sin_eq_period _ _ Hc Hs) as [m Hm].
+  symmetry. apply (pymod_unique x 360 d' (- m)); [exact Hr|].
+  pose proof PI_RGT_0 as HPI. rewrite opp_IZR.
+  assert (H : d' * PI = (x + 360 * IZR m) * PI) by (apply (Rmult_eq_reg_r (/ 180)); [lra|lra]).
+  apply Rmult_eq_reg_r in H; lra.
+Qed.
+
+Theorem total_stress_direction_rot_mod360 : forall p w depth z0 g x0 E th0 ds k,
+  uniform_dirs g th0 ds -> (k < ndir g)%nat -> well_shaped g E ->
+  friction_velocity p w z0 <> 0 ->
+  let v := total_stress_vec p w depth z0 g x0 E in
+  (fst v <> 0 \/ snd v <> 0) ->
+  exists m d d',
+    total_stress_point p w depth z0 g x0 E = (m, Some d) /\
+    total_stress_point p (rot_wind w k (ndir g)) depth z0 g x0 (rot_field k E) = (m, Some d') /\
+    d' = pymod (d + INR k * (360 / INR (ndir g))) 360.
+Proof.
+  intros p w depth z0 g x0 E th0 ds k Hu Hk Hs Hfv v Hv.
+  destruct (total_stress_point_rot p w depth z0 g x0 E th0 ds k Hu Hk Hs Hfv Hv)
+    as (d & d' & H1 & H2 & Hr & Hc & Hsn).
+  exists (sqrt (snd v ^ 2 + fst v ^ 2)), d, d'. repeat split; try assumption.
+  apply dir_is_pymod; assumption.
+Qed.
+
+Theorem diss_direction_rot_mod360 : forall depth g th0 ds k D' D,
+  uniform_dirs g th0 ds -> (k < ndir g)%nat -> shifted (nfreq g) (ndir g) k D' D ->
+  let v := diss_k_vector g (wavenumbers GRAV depth (g_w g)) D in
+  (fst v <> 0 \/ snd v <> 0) ->
+  diss_direction depth g D' = pymod (diss_direction depth g D + INR k * (360 / INR (ndir g))) 360.
+Proof.
+  intros depth g th0 ds k D' D Hu Hk Hsh v Hv.
+  destruct (diss_direction_rot depth g th0 ds k D' D Hu Hk Hsh Hv) as [Hc Hs].
+  apply dir_is_pymod; [unfold diss_direction; apply dir_deg_range|assumption|assumption].
+Qed.
+
+Theorem total_stress_direction_mirror_mod360 : forall p w depth z0 g x0 E ds,
+  uniform_dirs g 0 ds -> (0 < ndir g)%nat -> well_shaped g E ->
+  friction_velocity p w z0 <> 0 ->
+  let v := total_stress_vec p w depth z0 g x0 E in
+  (fst v <> 0 \/ snd v <> 0) ->
+  exists m d d',
+    total_stress_point p w depth z0 g x0 E = (m, Some d) /\
+    total_stress_point p (mir_wind w) depth z0 g x0 (mir_field E) = (m, Some d') /\
+    d' = pymod (- d) 360.
+Proof.
+  intros p w depth z0 g x0 E ds Hu HN Hs Hfv v Hv.
+  destruct (total_stress_point_mirror p w depth z0 g x0 E ds Hu HN Hs Hfv Hv)
+    as (d & d' & H1 & H2 & Hr & Hc & Hsn).
+  exists (sqrt (snd v ^ 2 + fst v ^ 2)), d, d'. repeat split; try assumption.
+  apply dir_is_pymod; assumption.
+Qed.
+
+Theorem diss_direction_mirror_mod360 : forall depth g ds D' D,
+  uniform_dirs g 0 ds -> (0 < ndir g)%nat -> mirrored (nfreq g) (ndir g) D' D ->
+  let v := diss_k_vector g (wavenumbers GRAV depth (g_w g)) D in
+  (fst v <> 0 \/ snd v <> 0) ->
+  diss_direction depth g D' = pymod (- diss_direction depth g D) 360.
+Proof.
+  intros depth g ds D' D Hu HN Hsh v Hv.
+  destruct (diss_direction_mirror depth g ds D' D Hu HN Hsh Hv) as [Hc Hs].
+  apply dir_is_pymod; [unfold diss_direction; apply dir_deg_range|assumption|assumption].
+Qed.
+
+(* the tail stress magnitude / direction reported by tail_stress() *)
+Theorem tail_stress_mag_dir_rot : forall p w z0 g x0 E th0 ds k,
+  uniform_dirs g th0 ds -> (k < ndir g)%nat -> well_shaped g E ->
+  let t := tail_stress_wam p w z0 g x0 E in
+  (fst t <> 0 \/ snd t <> 0) ->
+  let r := tail_stress_mag_dir t in
+  let r' := tail_stress_mag_dir (tail_stress_wam p (rot_wind w k (ndir g)) z0 g x0 (rot_field k E)) in
+  fst r' = fst r /\ snd r' = pymod (snd r + INR k * (360 / INR (ndir g))) 360.
+Proof.
+  intros p w z0 g x0 E th0 ds k Hu Hk Hs t Ht r r'.
+  assert (HN : (0 < ndir g)%nat) by lia.
+  unfold r', r, tail_stress_mag_dir. rewrite (tail_stress_rot p w z0 g x0 E th0 ds k Hu Hk Hs). fold t.
+  cbn [fst snd]. split.
+  - rewrite rotate2_norm. reflexivity.
+  - destruct (dir_deg_rotate (rot_angle k (ndir g)) t Ht) as [Hc Hsn].
+    apply dir_is_pymod; [apply dir_deg_range| |].
+    + rewrite wind_rot_rad by exact HN. exact Hc.
+    + rewrite wind_rot_rad by exact HN. exact Hsn.
+Qed.
